@@ -31,6 +31,16 @@ Theorem C08_lock_discipline_holds :
 Proof. exact facts_discipline. Qed.
 Print Assumptions C08_lock_discipline_holds.
 
+(* every call of every operation consists of at most ONE outermost critical section (and the goroutines
+   it starts open none), along every path: the discipline makes each critical section atomic
+   (C08_critical_sections_are_isolated, C08_micro_steps_reduce_to_atomic_sections); a call is one
+   atomic step of the sequential specification only if it does not split its work over two sections
+   (check-then-act over a released lock is race-free and still not linearizable). *)
+Theorem C08_every_operation_is_one_critical_section :
+  Forall (fun I => atomicity_violations I = []) facts.
+Proof. exact facts_one_section_per_call. Qed.
+Print Assumptions C08_every_operation_is_one_critical_section.
+
 (* no data race and no unlock of an unheld mutex, in any reachable configuration, for any number of
    goroutines and any interleaving *)
 Theorem C08_no_data_race_no_lock_misuse :
@@ -185,3 +195,15 @@ Theorem C08_has_reports_nothing_that_was_never_put :
                 ~ (h_ret hist b < h_inv hist a)%N.
 Proof. exact lin_has_only_put. Qed.
 Print Assumptions C08_has_reports_nothing_that_was_never_put.
+
+(* The OnPut callbacks of the deferred writer (registered before the concurrent phase; OnPut itself is
+   not an operation of the property): Put's loop -- call every registered callback in order, drop the
+   once-only ones -- run n times fires a once-only callback exactly once (if n > 0) and a persistent one
+   n times.  [cb_expected] is what the dynamic check (RunConc.prop_conc) demands of the implementation's
+   invocation counts, with n = the number of Puts that returned without error. *)
+Theorem C08_onput_callbacks_fire_counts :
+  forall (cbs : list (nat * bool)) (i : nat) (once : bool) (n : nat),
+    NoDup (map fst cbs) -> In (i, once) cbs ->
+    count_occ PeanoNat.Nat.eq_dec (cb_fires cbs n) i = N.to_nat (cb_expected once (N.of_nat n)).
+Proof. exact cb_fires_counts. Qed.
+Print Assumptions C08_onput_callbacks_fire_counts.
